@@ -51,7 +51,7 @@ def run_typestate(ctx, m):
     for name in ("place_order", "cancel_order", "modify_order"):
         f = m.book_fn(name)
         roots[name] = ts.analyse(f, {})
-    loaders = [f for f in ctx.prog.fns.values() if f.name == "try_from" and "OrderBook" in (f.impl_self or "")
+    loaders = [f for f in ctx.prog.units() if f.name == "try_from" and "OrderBook" in (f.impl_self or "")
                and f.crate.name == "bourse_book"]
     for f in loaders:
         roots["loader"] = ts.analyse(f, {}, mode="loader")
@@ -232,7 +232,7 @@ def run(ctx):
         for (loc, b, sp, what) in s["sites"]:
             if what.startswith("call ") or loc.root[0] != "param":
                 continue
-            if loc.path == (m.f_orders,) and "orderbook::OrderBook<" in f.body.local_ty(loc.root[1]):
+            if loc.path == (m.f_orders,) and "orderbook::OrderBook<" in m.q(f).body.local_ty(loc.root[1]):
                 where = "%s:%s (%s)" % (sp["file"], sp["line"], f.short())
                 ctx.check(f.path == create.path and what == "extern push", "dense-ids", "table-mutation|%s|%s" % (f.short(), what), where,
                           "order table length changes only by the push in create_order", "order table mutated as a whole by `%s` in %s" % (what, f.short()))
@@ -259,11 +259,11 @@ def noop_slice(ctx, m, api, needed, _unused):
     q = m.q(f)
     # find the switch edge carrying the negated status atom
     found = None
-    for blk in f.body.blocks:
+    for blk in q.body.blocks:
         t = blk.term
         if blk.cleanup or not t or t.k != "switch":
             continue
-        for s in set(f.body.succs(blk.i)):
+        for s in set(q.body.succs(blk.i)):
             for a in q.cfg.edge_atoms(blk.i, s):
                 if a[0] == "cmp" and a[1] == "ne" and a[2][0] == "field" and a[2][2] == "status" and status_const(a[3]) == needed:
                     found = (blk.i, s, a)
@@ -274,7 +274,7 @@ def noop_slice(ctx, m, api, needed, _unused):
     # the guard must dominate every effectful site outside the slice: i.e. every other successor
     slice_blocks = q.cfg.reach_from(s)
     other = set()
-    for s2 in set(f.body.succs(b)):
+    for s2 in set(q.body.succs(b)):
         if s2 != s:
             other |= q.cfg.reach_from(s2)
     only = slice_blocks - other
@@ -294,7 +294,7 @@ def noop_slice(ctx, m, api, needed, _unused):
             src = None
             defs = q.ev.def_sites().get(copy_l, [])
             if len(defs) == 1 and defs[0][0] == "s":
-                stt = f.body.blocks[defs[0][1]].stmts[defs[0][2]]
+                stt = q.body.blocks[defs[0][1]].stmts[defs[0][2]]
                 from analysis.origin import strip
                 src = strip(q.ev.rvalue(stt.rv, (defs[0][1], defs[0][2])))
             same_slot = False
